@@ -30,6 +30,10 @@ CHECKS = {
             "Every collection-producing function on a family of inputs with many equal-rank output members is run in fresh processes under an LD_PRELOAD getrandom seam for >= 64 hash seeds (extended until every iteration order of probe HashMaps up to size 4, thorough 5, has been produced), for RAYON_NUM_THREADS 1..16, three times per process and after a different call history; overlay of 19k- and 92k-segment inputs under every in-process pool size 1..16. All outputs must be bit-identical to the reference run.",
             "NOT covered: thread interleavings inside rayon/i_overlay (third-party, std primitives, not instrumentable with loom/shuttle); one free-running schedule per configuration is observed. Configurations (seeds as far as map order is concerned, pool sizes, histories) are exhaustive as stated.",
             "DESIGN.md §4 C20, §8"),
+    "C05": ("E1-grid", "bounded exhaustive enumeration of lattice polygons x windings x offsets x scales vs exact rational shoelace",
+            "Every simple lattice ring (all of G3, G4 up to 5/6 vertices) and valid polygons with 1-2 holes, in every combination of ring windings and ring rotations, at offsets up to 1e9 and scale 2^-20: signed/unsigned area against the exact rational area, Rect/Triangle against their polygon form, collection sums, winding_order for every rotation/reversal/repeated vertex against the sign of the exact area, orient(Default|Reversed).",
+            "Trusted: exact integer shoelace. Tolerance 8 ulp(coordinate magnitude) x extent; the measured deviation/tolerance ratio is reported in the evidence.",
+            "DESIGN.md §4 C05"),
 }
 
 NOT_YET = "check not built yet in this round (planned: bounded exhaustive exploration, see DESIGN.md §4)"
